@@ -5,6 +5,7 @@ import sys
 sys.path.insert(0, os.path.dirname(os.path.abspath(__file__)))
 
 CACHE = {'C01', 'C02', 'C05', 'C06', 'C07', 'C15', 'C16', 'C18'}
+KEYS = {'C09', 'C10', 'C11', 'C17'}
 
 
 def main():
@@ -15,6 +16,9 @@ def main():
     if prop in CACHE:
         import cache_check
         return cache_check.run_property(prop)
+    if prop in KEYS:
+        import keys_check
+        return keys_check.run_property(prop)
     mod = __import__('check_' + prop.lower())
     return mod.main()
 
